@@ -61,7 +61,8 @@ def _profile(mins, url, dtprofup, status, with_profrs, msgsets=ALL_MSGSETS, clos
             m = copy.deepcopy(mins[ms])
             v1 = m[2][0]
             core = next(k for k in v1[2] if k[0] == "MSGSETCORE")
-            setleaf(core, ["URL"], url)
+            # (on the wire '&' is escaped: a service URL with a multi-parameter query string reads "...?a=1&amp;b=2")
+            setleaf(core, ["URL"], url.replace("&", "&amp;"))
             if ms in ("BANKMSGSET", "CREDITCARDMSGSET"):
                 setleaf(v1, ["CLOSINGAVAIL"], closingavail)
             msl[2].append(m)
